@@ -238,7 +238,7 @@ def prove(res, modules, theorems, driver=True):
             return False, "leanchecker failed:\n" + o[-3000:]
     return True, ""
 
-def correspond(res, prop, extra_args=()):
+def correspond(res, prop, extra_args=(), feed_impl=False):
     """Run harness → ops/impl, driver → model. Returns (ops, impl, model) line lists, stats."""
     ok, out = build_harness(prop)
     if not ok:
@@ -251,7 +251,14 @@ def correspond(res, prop, extra_args=()):
                   env=env, timeout=7200)
     if rc != 0:
         return None, "harness failed (rc=%d):\n%s" % (rc, out[-4000:])
-    with open(os.path.join(rundir, "ops.txt")) as fin, open(os.path.join(rundir, "model.txt"), "w") as fout:
+    feed = os.path.join(rundir, "ops.txt")
+    if feed_impl:
+        # the driver also judges the implementation's observation: "<op body> @ <impl observation>"
+        feed = os.path.join(rundir, "feed.txt")
+        with open(os.path.join(rundir, "ops.txt")) as fo, open(os.path.join(rundir, "impl.txt")) as fi, open(feed, "w") as ff:
+            for o, i in zip(fo, fi):
+                ff.write(op_body(o.rstrip("\n")) + " @ " + i)
+    with open(feed) as fin, open(os.path.join(rundir, "model.txt"), "w") as fout:
         rc, o2 = run([driver_bin(prop)], stdin=fin, stdout=fout, timeout=7200)
     if rc != 0:
         return None, "driver failed rc=%d" % rc
